@@ -317,6 +317,24 @@ func checkC09(c *hx.Checker) {
 			}
 		}
 	}
+	// larger shapes beyond the exhaustive box
+	for _, sh := range [][]int{{4, 5, 6}, {2, 17}, {9, 1, 8}} {
+		x := ref.Fill(ref.F32, sh, func(i int) float64 { return float64((i*37+11)%101)/10 - 5 })
+		for ax := 0; ax < len(sh); ax++ {
+			for _, kd := range []int{0, 1} {
+				e1, err1 := ref.ArgMax(x, ax, kd != 0)
+				jobs = append(jobs, newJob("ArgMax", []hx.Attr{hx.AInt("axis", int64(ax)), hx.AInt("keepdims", int64(kd))}, []*ref.T{x}, []*ref.T{e1}, err1, hx.DCompute, hx.Bits, "op", nil, fmt.Sprintf("large axis=%d kd=%d", ax, kd), "large"))
+				e2, err2 := ref.Reduce(x, []int64{int64(ax)}, true, kd != 0, true)
+				jobs = append(jobs, newJob("ReduceMax", []hx.Attr{hx.AInts("axes", int64(ax)), hx.AInt("keepdims", int64(kd))}, []*ref.T{x}, []*ref.T{e2}, err2, hx.DCompute, hx.Bits, "op", nil, fmt.Sprintf("large axis=%d kd=%d", ax, kd), "large"))
+				e3, err3 := ref.Reduce(x, []int64{int64(ax)}, true, kd != 0, false)
+				jobs = append(jobs, newJob("ReduceMin", []hx.Attr{hx.AInts("axes", int64(ax)), hx.AInt("keepdims", int64(kd))}, []*ref.T{x}, []*ref.T{e3}, err3, hx.DCompute, hx.Bits, "op", nil, fmt.Sprintf("large axis=%d kd=%d", ax, kd), "large"))
+			}
+			e4, err4 := ref.Softmax(x, ax, false)
+			jobs = append(jobs, newJob("Softmax", []hx.Attr{hx.AInt("axis", int64(ax))}, []*ref.T{x}, []*ref.T{e4}, err4, hx.DCompute, hx.Tol(2e-4, 1e-37), "op", nil, fmt.Sprintf("large axis=%d", ax), "large"))
+			e5, err5 := ref.Softmax(x, ax, true)
+			jobs = append(jobs, newJob("LogSoftmax", []hx.Attr{hx.AInt("axis", int64(ax))}, []*ref.T{x}, []*ref.T{e5}, err5, hx.DCompute, hx.Tol(2e-4, 2e-4), "op", nil, fmt.Sprintf("large axis=%d", ax), "large"))
+		}
+	}
 	runOpJobs(c, jobs)
 	runReuseJobs(c, jobs)
 }
